@@ -422,8 +422,9 @@ Definition get_info (o : options) (rank : Z) (p : str) (g : gstate) : option (gs
         end
     end
   else
-    (* case 4: both all *)
-    Some (comp_into_chunk (set_comp (global_chunk o rank g) (comp_g o)), have).
+    (* case 4: both all; the table is not consulted here, the function returns 0 even for an object that has an
+       entry (one whose -t NONE was superseded by "*") *)
+    Some (comp_into_chunk (set_comp (global_chunk o rank g) (comp_g o)), false).
 
 (** * The layout decision of copy_sds / copy_gr *)
 Definition flags_of (l : layout) : Z :=
@@ -617,3 +618,52 @@ Definition strip_order (dims : list Z) (eltsz buf : Z) : option (list Z) :=
 
 (** does the object go through the strip-mining loop? *)
 Definition strip_mined (bytes flags comp : Z) : bool := negb (truth (sds_one_piece bytes flags comp)).
+
+(** * Traversal tags and the metadata plumbing of the copy functions
+
+    [insert_*_tags]: the member tags under which vgroup_insert copies an object of each kind;
+    [list_*_search_tags]: the tags the top-level passes (list_sds, list_gr, list_vs) look up to skip objects that were
+    already copied as vgroup members.  An object is copied exactly once only if the second set covers the first.
+
+    [copy_*_inquired] / [copy_*_created] ...: the argument lists of the inquiring and the creating / transferring
+    calls of copy_gr, copy_sds, copy_vs, as identifiers.  [passes a i b j]: argument [i] of call [a] is the same
+    variable as argument [j] of call [b] (what the input reports is what the output is created with). *)
+Definition covered (tags by_ : list Z) : bool := forallb (fun t => existsb (Z.eqb t) by_) tags.
+
+Definition passes (a : list str) (i : nat) (b : list str) (j : nat) : bool :=
+  match nth_error a i, nth_error b j with
+  | Some x, Some y => str_eqb x y
+  | _, _ => false
+  end.
+
+(** copy_gr: name, number of components, number type, interlace and dimensions go from GRgetiminfo to GRcreate
+    untouched; the image is read in its own interlace and written from the same buffer with the same geometry *)
+Definition copy_gr_plumbing : bool :=
+  passes copy_gr_inquired 1 copy_gr_created 1 && passes copy_gr_inquired 2 copy_gr_created 2 &&
+  passes copy_gr_inquired 3 copy_gr_created 3 && passes copy_gr_inquired 4 copy_gr_created 4 &&
+  passes copy_gr_inquired 5 copy_gr_created 5 &&
+  match copy_gr_reassigned with [] => true | _ => false end &&
+  passes copy_gr_inquired 4 copy_gr_reqil 1 &&
+  passes copy_gr_read 1 copy_gr_write 1 && passes copy_gr_read 2 copy_gr_write 2 &&
+  passes copy_gr_read 3 copy_gr_write 3 && passes copy_gr_read 4 copy_gr_write 4.
+
+(** copy_sds: name, number type and rank go from SDgetinfo to both SDcreate calls, the dimensions to the second
+    (the first one replaces the slowest by SD_UNLIMITED) *)
+Definition copy_sds_plumbing : bool :=
+  passes copy_sds_inquired 1 copy_sds_created 1 && passes copy_sds_inquired 4 copy_sds_created 2 &&
+  passes copy_sds_inquired 2 copy_sds_created 3 &&
+  passes copy_sds_inquired 1 copy_sds_create2 1 && passes copy_sds_inquired 4 copy_sds_create2 2 &&
+  passes copy_sds_inquired 2 copy_sds_create2 3 && passes copy_sds_inquired 3 copy_sds_create2 4 &&
+  match copy_sds_reassigned with [] => true | _ => false end.
+
+(** copy_vs: the interlace VSinquire reports is the one set on the output, the one the records are read in and the
+    one they are written in; the same buffer and record count are read and written; the same field list is set on
+    both vdatas; name and class are those read from the input *)
+Definition copy_vs_plumbing : bool :=
+  passes copy_vs_inquired 2 copy_vs_created 1 &&
+  passes copy_vs_inquired 2 copy_vs_read 3 && passes copy_vs_inquired 2 copy_vs_write 3 &&
+  passes copy_vs_inquired 1 copy_vs_read 2 && passes copy_vs_inquired 1 copy_vs_write 2 &&
+  passes copy_vs_read 1 copy_vs_write 1 &&
+  passes copy_vs_inquired 3 copy_vs_setfields_out 1 && passes copy_vs_inquired 3 copy_vs_setfields_in 1 &&
+  passes copy_vs_inquired 5 copy_vs_setname 1 &&
+  match copy_vs_reassigned with [] => true | _ => false end.
